@@ -17,9 +17,14 @@ USER_MACROS = [
     "(defmacro show (form) `(list ',form ,form))",
     "(defmacro op-of (form) (list 'quote (if (consp form) (car form) form)))",
     "(defmacro keep (&rest forms) `',forms)",
+    # templates that hold a built-in macro call whose expansion depends on what is substituted into it
+    "(defmacro pipe (x &rest steps) `(-> ,x ,@steps))",
+    "(defmacro pipe-last (x &rest steps) `(->> ,x ,@steps))",
+    "(defmacro when-all (&rest clauses) `(when ,@clauses))",
+    "(defmacro with-bound (spec &rest body) `(if-let ,spec (progn ,@body) 'unbound))",
 ]
 ARITY = {'inc': (1, 2), 'my-when': (1, None), 'my-unless': (1, None), 'twice': (1, 1), 'k7': (0, 0), 'second-arg': (2, None),
-         'with-x': (1, None), 'plus-all': (0, None), 'my-or2': (2, 2), 'quoted': (1, 1), 'pair': (1, 2), 'show': (1, 1), 'op-of': (1, 1), 'keep': (0, None)}
+         'with-x': (1, None), 'plus-all': (0, None), 'my-or2': (2, 2), 'quoted': (1, 1), 'pair': (1, 2), 'show': (1, 1), 'op-of': (1, 1), 'keep': (0, None), 'pipe': (1, None), 'pipe-last': (1, None), 'when-all': (1, None), 'with-bound': (1, None)}
 
 class MacroGen:
     def __init__(self, rng, tick_p=0.3):
@@ -37,11 +42,16 @@ class MacroGen:
         r = self.r
         if d <= 0: return self.atom()
         def sub(): return self.form(d - 1)
-        c = r.choice(['when', 'unless', 'my-when', 'my-unless', 'twice', 'k7', 'second-arg', 'with-x', 'plus-all', 'my-or2', 'pair', 'inc', 'show', 'op-of', 'keep',
+        c = r.choice(['when', 'unless', 'my-when', 'my-unless', 'twice', 'k7', 'second-arg', 'with-x', 'plus-all', 'my-or2', 'pair', 'inc', 'show', 'op-of', 'keep', 'pipe', 'pipe-last', 'when-all', 'with-bound',
                       '->', '->>', 'thread-first', 'thread-last', 'if-let', 'when-let', 'if-let*', 'while-let',
                       'plain', 'plain', 'let', 'cond', 'quote', 'lambda', 'setq', 'dotted', 'dotcode'])
         if c in ('when', 'unless', 'my-when', 'my-unless'): return [c, sub()] + [sub() for _ in range(r.choice([0, 1, 2]))]
         if c == 'twice': return ['twice', sub()]
+        if c in ('pipe', 'pipe-last'):
+            steps = [r.choice(['1+', ['+', self.num(d - 1)], ['-', 10], ['list', 0], ['*', 2]]) for _ in range(r.choice([0, 1, 2, 3]))]
+            return [c, self.num(d - 1)] + steps
+        if c == 'when-all': return [c, sub()] + [sub() for _ in range(r.choice([0, 1, 2, 3]))]
+        if c == 'with-bound': return [c, self.let_spec(d - 1), sub()] + [sub() for _ in range(r.choice([0, 1]))]
         if c in ('show', 'op-of'): return [c, sub()]
         if c == 'keep': return ['keep'] + [sub() for _ in range(r.choice([0, 1, 2]))]
         if c == 'k7': return ['k7']
